@@ -636,6 +636,13 @@ impl Ranking {
             _ => cx.rng.below(13),
         };
         let rating_scale = *cx.rng.pick(&[1usize, 1, 1, 65536, 1 << 24, ((1usize << 31) - 1) / 2000]);
+        // adjacent ratings at a high magnitude (where narrower number types can no longer tell them apart)
+        let rating_offset = if rating_scale == 1 && cx.rng.chance(1, 4) {
+            cx.count("stores with adjacent ratings above 2^24");
+            *cx.rng.pick(&[1usize << 24, (1 << 30) + 1, (1usize << 31) - 1 - 3 * 1300])
+        } else {
+            0
+        };
         if n > 12 {
             cx.count("stores of 13-60 records");
         }
@@ -647,14 +654,22 @@ impl Ranking {
         let common: String = if long_prefix { format!("{} ", gen::rand_word(&mut cx.rng, &gen::lower_alphabet(lang), 20, 40)) } else { String::new() };
         let mk = |rng: &mut Rng, i: usize| -> Rec {
             let t = format!("{}{}{}{}", common, rng.pick(&words), if rng.chance(1, 2) { " " } else { "" }, if rng.chance(1, 2) { *rng.pick(&words) } else { "" });
-            (i, t, (if distinct { i * 3 + rng.below(3) } else { rng.below(3) }) * rating_scale)
+            (i, t, (if distinct { i * 3 + rng.below(3) } else { rng.below(3) }) * rating_scale + rating_offset)
         };
         let mut recs: Vec<Rec> = (0..n).map(|i| mk(&mut cx.rng, i)).collect();
         cx.rng.shuffle(&mut recs);
-        let limit = cx.rng.below(n + 3);
+        let mut limit = cx.rng.below(n + 3);
+        let limit0 = limit;
         let mut st = St::build_sentinel(lang, &recs, limit);
         let rounds = cx.rng.range(1, 3);
+        let relimit = cx.rng.chance(1, 3);
         for round in 0..rounds {
+            if round > 0 && relimit {
+                // limit changes between two empty-query searches: up, and back to the first value
+                limit = if round == 1 { limit0 + cx.rng.range(1, 3) } else { limit0 };
+                st.store.limit = limit;
+                cx.count("searches after a limit change");
+            }
             if round > 0 {
                 // history part: further adds on the same store
                 for _ in 0..cx.rng.range(1, 3) {
@@ -779,7 +794,7 @@ impl Prop for Ranking {
             Which::Verdicts => vec![("truncated (more matches than limit)", 200, 2000), ("beyond the 10x cap (soundness only)", 100, 1000), ("limit 0", 50, 500), ("selection buffer refilled (matches >= 2*limit)", 100, 1000), ("store with tied ratings (set comparison)", 50, 500), ("empty query", 50, 500), ("corpus-store searches", 100, 2000), ("corpus-store searches compared with the unlimited corpus store", 10, 200), ("large stores (limit 50-200)", 400, 8000), ("large stores whose match count is an exact multiple of the limit", 20, 400), ("stores of more than 2048 records", 8, 160), ("stores of 66-260 records", 300, 3000)],
             Which::Order => vec![("pair stores", 2000, 20000), ("permuted stores", 2000, 20000), ("searches with >= 2 hits", 300, 3000), ("truncated lists compared across permutations", 30, 300), ("stores of similar words", 500, 5000), ("pairs involving a hit ranked 7th or lower", 300, 3000), ("large stores (limit 50-200)", 200, 4000), ("stores of more than 2048 records", 4, 80), ("stores with ratings in [2^31, 2^32)", 200, 2000)],
             Which::Rules => vec![("rule exact>typo", 500, 5000), ("rule both>one", 500, 5000), ("rule prefix: exact>tail", 500, 5000), ("rule adjacent>gap", 500, 5000), ("rule first>second", 500, 5000), ("rule identical titles: rating decides", 300, 3000), ("rule equal rating: shorter title first", 300, 3000), ("rule function word: content word first", 1000, 10000), ("u made of two function words run together", 300, 3000), ("rule cases with a third, unrelated record", 20000, 200000), ("identical titles with ratings 1-3 apart", 1000, 10000)],
-            Which::Empty => vec![("searches after further adds", 1000, 10000), ("truncated lists with tied ratings", 500, 5000), ("stores with distinct ratings", 500, 5000), ("limit 0", 100, 1000), ("stores of 13-60 records", 1000, 10000), ("stores whose titles share a prefix of 20-40 characters", 1500, 15000)],
+            Which::Empty => vec![("searches after further adds", 1000, 10000), ("truncated lists with tied ratings", 500, 5000), ("stores with distinct ratings", 500, 5000), ("limit 0", 100, 1000), ("stores of 13-60 records", 1000, 10000), ("stores whose titles share a prefix of 20-40 characters", 1500, 15000), ("stores with adjacent ratings above 2^24", 1000, 10000), ("searches after a limit change", 1000, 10000)],
         }
     }
     fn ratios(&self) -> Vec<(&'static str, &'static str, f64, f64)> {
